@@ -200,6 +200,14 @@ impl ServiceInfo {
                 )));
             }
 
+            // A boolean property with an empty key would be encoded as a zero-length
+            // string, which ends the TXT record for decoders: later properties are lost.
+            if key.is_empty() && prop.val().is_none() {
+                return Err(Error::Msg(
+                    "TXT property with an empty key must have a value".to_string(),
+                ));
+            }
+
             // RFC6763 section 6.1: each TXT record string is prefixed by a
             // single length byte, so it cannot exceed 255 bytes.
             let prop_len = key.len() + prop.val().map_or(0, |v| v.len() + 1);
